@@ -603,8 +603,9 @@ fn format_expression_or_type(
 ) -> Result<(), FormatError> {
     match value {
         ast::ExpressionOrType::Expression(expr) | ast::ExpressionOrType::Either(expr, _) => {
-            // A comma expression must be parenthesised or it reads back as further arguments
-            format_subexpression(expr, 17, OperatorSide::CommaList, output, context)
+            // These expressions are read in a list that ends at a > so >, >= and >> are not operators in them
+            // Parenthesise the shift operators and everything that binds less tightly - which includes the comma
+            format_subexpression(expr, 7, OperatorSide::CommaList, output, context)
         }
         ast::ExpressionOrType::Type(ty) => format_type_id(ty, output, context),
     }
